@@ -155,6 +155,7 @@ contract(AC + "._send_command_get_responses",
          raises={},
          ensures={"one_exchange": "len(events('sent')) == 1 and same_object(events('sent')[0], command)",
                   "every_frame_is_examined": "final('_i') == len(final('responses'))"},
+         local_roles={"responses": "assigned_from:_send_command(", "valid_responses": "returned", "data": "loop0.target"},
          loops={"0": {"match": "responses", "havoc": {"valid_responses": "list:" + ANY_RESPONSE},
                       "invariant": ["len(valid_responses) <= _i"],
                       "step_ensures": {"kept_iff_decodable": "len(valid_responses) == pre(len(valid_responses)) + (1 if accepts(pre(data)) else 0)"}}})
